@@ -13,7 +13,25 @@ THEOREMS = ["C05_literal_denotes", "C05_literal_adjacent", "C05_literal_any_byte
             "C05_payload_roundtrip_icmp_echo", "C05_payload_roundtrip_icmp_echo_reply",
             "C05_payload_roundtrip_datagram", "C05_payload_roundtrip_fragment", "C05_payload_roundtrip_frag_datagram",
             "C05_payload_roundtrip_frag_ctx", "C05_payload_roundtrip_eth_frame", "C05_payload_roundtrip_tls_record",
-            "C05_bufio_partition", "C05_consecutive_concat", "C05_consecutive_read_all", "C05_bufio_from_start"]
+            "C05_bufio_partition", "C05_consecutive_concat", "C05_consecutive_read_all", "C05_bufio_from_start",
+            # library level: 31 payload-carrying keys from the catalogue, histories of all eight classes, through the file,
+            # nesting, sizes beyond 16 bits (Props/C05b.v)
+            "C05b_walker_defs", "C05b_payload_is_concat", "C05b_payload_only_concat",
+            "C05b_pay_keys", "C05b_lib_all_keys", "C05b_plan_defs",
+            "C05b_tcp_methods", "C05b_tcp_plan_defs", "C05b_tcp_plans",
+            "C05b_tcp_message_concat", "C05b_udp_flow_methods", "C05b_udp_flow_plans",
+            "C05b_udp_unicast", "C05b_udp_broadcast", "C05b_icmp_methods",
+            "C05b_icmp_plan", "C05b_datagram", "C05b_frag_methods",
+            "C05b_frag_plans", "C05b_eth_frame", "C05b_stored",
+            "C05b_stored_defs", "C05b_tunnel_plan_defs", "C05b_vxlan_methods",
+            "C05b_gre_methods", "C05b_erspan1_methods", "C05b_erspan2_methods",
+            "C05b_created_wf", "C05b_history", "C05b_history_defs",
+            "C05b_tcp_history", "C05b_udp_history", "C05b_record_carries",
+            "C05b_records_carry", "C05b_program_file", "C05b_file_defs",
+            "C05b_peel1_implies_walker", "C05b_nested_carries", "C05b_nested_deep",
+            "C05b_through_defs", "C05b_unicast_lengths", "C05b_big_check_def"]
+PROPS = ["C05", "C05b"]
+VO = ["theories/Props/C05.vo", "theories/Props/C05b.vo"]
 MODELS = ("lit", "run")
 RULE = ("string literals: EVERY literal body of up to 6 (quick) / 7 (thorough) symbols over the alphabet "
         "{a f 0 9 g A | space : - e-acute euro NBSP} through the real Buf::from_str and the model, plus random long "
